@@ -294,8 +294,9 @@ class TorState(object):
         router.flags = kw.get('flags', [])
         if 'bandwidth' in kw:
             router.bandwidth = kw['bandwidth']
-        if 'ip_v6' in kw:
-            router.ip_v6.extend(kw['ip_v6'])
+        # a Router is re-used across consensus documents, so this has
+        # to reflect *this* document only
+        router.ip_v6 = list(kw.get('ip_v6', []))
 
         if 'guard' in router.flags:
             self.guards[router.id_hex] = router
